@@ -112,4 +112,11 @@ class EvC(IEvent):
         self.tag = tag
 
 
+class EvLate(IEvent):
+    """An event nobody observes, handed to a transmitter after its environment was built."""
+    def __init__(self, time, tag):
+        self.time = time
+        self.tag = tag
+
+
 CUSTOM_EVENTS = {"EvA": EvA, "EvB": EvB, "EvC": EvC}
